@@ -155,6 +155,9 @@ var operators = []map[string]tokType{
 		"~>": tokBacon,
 		",":  tokComma,
 	},
+
+	// Only versions are supported for Composer; there are no operators.
+	Composer: {},
 }
 
 func (sys System) typeOf(r rune) uint8 {
